@@ -9,20 +9,26 @@ TARGETS = [
     "verde.model_selection:BlockShuffleSplit.__init__",
     "verde.base.base_classes:BaseBlockCrossValidator.get_n_splits",
     "verde.utils:partition_by_sum",
+    "contracts.cv_c11:kfold_test_sets",
     "contracts.cv_c11:kfold_splits",
     "contracts.cv_c11:shuffle_splits",
 ]
-MIN_OBLIGATIONS = {"quick": 10, "thorough": 10}
+MIN_OBLIGATIONS = {"quick": 200, "thorough": 200}
 EXPLANATION = (
-    "MIXED, claimed as 'other': the constructor rejections / parameter storage / get_n_splits are discharged deductively (symbolic "
-    "parameters). The split behaviour itself (partition, whole blocks, disjoint covering non-empty folds, balance bound, prescribed "
-    "block counts, best-balanced candidate, reproducibility) and partition_by_sum are checked by RUN-TIME contracts on the real classes, "
-    "BOUNDED: exhaustively over block-occupancy vectors of length <= 4 with entries <= 3 (quick) or sampled up to length 6 / entries 4 "
-    "(thorough) x n_splits x shuffle/balance - never counted as proved. Bringing np.unique/isin/where/split and scikit-learn's KFold / "
-    "ShuffleSplit index sets within the verifier's reach is future work (DESIGN.md)."
+    "MIXED, claimed as 'other'. DEDUCTIVE (pyvc/z3): constructor rejections / parameter storage / get_n_splits (symbolic parameters); "
+    "partition_by_sum for EVERY array of 1..4 (quick) / 1..5 (thorough) positive integers and every number of parts (split points "
+    "strictly increasing inside the array, no empty part, every part sum within max element + parts of the ideal; ValueError required "
+    "when parts > size); the REAL BlockKFold._iter_test_indices for an arbitrary number of samples with arbitrary labels and exactly "
+    "G = 2..3 (quick) / 2..4 (thorough) occupied blocks, all n_splits <= G, shuffle and balance on/off: exactly n_splits test sets, "
+    "every sample tested exactly once, a test set never splits a block, no test set empty, and - when balancing - the populations "
+    "handed to partition_by_sum are position by position those of the blocks in the (shuffled) order the folds are cut from; "
+    "n_splits > G rejected. BOUNDED (run-time contracts on the real classes, never counted as proved): the same split clauses plus the "
+    "balance bound, BlockShuffleSplit (prescribed block counts, best-balanced candidate) and reproducibility, exhaustively over "
+    "block-occupancy vectors of length <= 4 with entries <= 3 (quick) or sampled up to length 6 / entries 4 (thorough), and over "
+    "12..40 very unevenly populated blocks."
 )
-TECHNIQUE = "contracts: constructors by deductive verification (pyvc/z3); splitters by bounded run-time contract checking over enumerated block-occupancy vectors (stand-in, not proof)"
-LEVEL_NOTE = "Only the constructor / parameter obligations are proofs. Everything about the produced splits is a bounded run-time contract check against scikit-learn's real splitters and verde.block_split (itself proved under C08)."
+TECHNIQUE = "contracts: constructors, partition_by_sum and BlockKFold's fold wiring by deductive verification (pyvc/z3, structural bound on the number of occupied blocks); BlockShuffleSplit, the balance bound and larger layouts by bounded run-time contract checking (stand-in, not proof)"
+LEVEL_NOTE = "Proofs: constructors, partition_by_sum (array length <= 4/5, values symbolic), BlockKFold fold wiring (<= 3/4 occupied blocks, samples and labels symbolic). BlockShuffleSplit, the count additivity behind 'balanced within one block population' and layouts with more blocks are bounded run-time contract checks against scikit-learn's real splitters."
 ASSUMPTIONS = ["verde.block_split labels (used as the oracle for 'same block') are correct - proved separately under C08"]
 
 
